@@ -286,6 +286,23 @@ fn run_history(st: &mut Stats, rng: &mut Rng, hist_id: u64, len: usize, replay_o
                 }
             };
             let snap = deep_copy(&r);
+            // find() and clean() on a structural COPY of a result hand back the environment's own node
+            if step % 7 == 3 {
+                st.bump("find_and_clean_on_copies");
+                let copy = deep_copy(&r);
+                match guarded(|| (env.find(&copy), env.clean(Rc::clone(&copy)))) {
+                    Ok((f, c)) => {
+                        if !Rc::ptr_eq(&f, &r) || !Rc::ptr_eq(&c, &r) {
+                            st.violate("c13.sharing", "C13:sharing:find-or-clean-returns-a-copy".into(), format!("history {} step {}: find / clean on a copy of the result {} return another node than the environment's (find: {}, clean: {})", hist_id, step, short(&r), Rc::ptr_eq(&f, &r), Rc::ptr_eq(&c, &r)), case());
+                            return;
+                        }
+                    }
+                    Err(c) => {
+                        st.violate("c13.panic", format!("C13:find-clean:{}", c.signature()), format!("history {} step {}: find / clean on a copy of {}: {:?}", hist_id, step, short(&r), c), case());
+                        return;
+                    }
+                }
+            }
             pool.push(Handle { d: r, table, snap, born: step });
         }
         if (step + 1) % 40 == 0 || step + 1 == steps {
